@@ -30,7 +30,7 @@ PROPS = {
         assumptions=[VALIDITY, "oracle R_np (harness/shared/zz_oracle.go) is the reading of Kubernetes NetworkPolicy semantics"],
         groups=[
             dict(pkg=EVAL, harness="harness/eval", shared="harness/shared",
-                 quick=ev("^ZZ_C01_OnePolicy$", "3 workloads in 2 namespaces (with/without Namespace objects), one NetworkPolicy from menus: 3 selectors x 4 policyTypes x "
+                 quick=ev("^ZZ_C01_(OnePolicy|SharedCidrBlocks)$", "3 workloads in 2 namespaces (with/without Namespace objects), one NetworkPolicy from menus: 3 selectors x 4 policyTypes x "
                           "{no rule, one ingress rule, one egress rule} x 5 peer shapes (incl. ipBlock with <=1 except, prefix lengths {0,24,32}) x 5 port shapes "
                           "(range, protocol-only, named, two entries); all ordered peer pairs; symbolic ports, port ranges, container port, CIDR bits, address",
                           "more policies/rules; other prefix lengths; IPv6", models=40),
@@ -100,6 +100,25 @@ PROPS = {
             dict(pkg=EVAL, harness="harness/eval", shared="harness/shared",
                  quick=ev("^ZZ_C12_", "eval path: InsertObject one by one + CheckIfAllowed (4 query kinds) with a hostile NetworkPolicy / ANP / BANP / Pod / Namespace", "as above", models=30),
                  thorough=ev("^ZZ_C12_", "<=4 simultaneous mutations", "as above", models=200, maxpaths=3000000)),
+        ],
+    ),
+    "C16": dict(
+        assumptions=[VALIDITY],
+        groups=[
+            dict(pkg=CONNLIST, harness="harness/connlist", shared="harness/shared",
+                 quick=ev("^ZZ_C16_", "4 workloads (the name 'a' in two namespaces), a NetworkPolicy with a symbolic port range, with/without Service+Ingress, exposure on/off; "
+                          "8 focus values (name, ns/name, absent name, absent namespace, ingress-controller); focused report compared entry by entry with the filtered unfocused one, connections compared by the solver",
+                          "output formats (C09 territory); larger worlds", models=40)),
+        ],
+    ),
+    "C17": dict(
+        assumptions=[VALIDITY],
+        groups=[
+            dict(pkg=CONNLIST, harness="harness/connlist", shared="harness/shared",
+                 quick=ev("^ZZ_C17_", "one pod template as each of 7 controller kinds and as 1-3 bare pods with one owner, replicas/parallelism nil or any int32 (symbolic), "
+                          "next to a second workload and a policy with symbolic range and a named port; compared with the Deployment/no-replicas baseline; "
+                          "pairs of workloads with colliding names (a, a-1, same name under two kinds)",
+                          "more than 3 pods per owner; more workloads", models=40)),
         ],
     ),
 }
